@@ -110,7 +110,7 @@ class Shapes(object):
                 defaults[name] = None
                 self.fields.append((name, ("list", T)))
             elif shape == "set":
-                T = r.choice([int, str, float, self.Enum, bool])
+                T = r.choice([int, str, float, self.Enum, bool, self.Leaf, self.Leaf])      # (instances hash by identity: a set of objects)
                 ann[name] = typing.Set[T]
                 defaults[name] = None
                 self.fields.append((name, ("set", T)))
@@ -140,7 +140,8 @@ class Shapes(object):
         if T is float:
             return r.choice([0.0, -0.0, 1.5, -2.25, 0.1, 1e300, -1e-300, float("inf"), float("-inf"), float("nan"), 123456.789, r.uniform(-1e6, 1e6)])
         if T is str:
-            return r.choice(["", "a", "héllo", "中文", "\U0001F600", "with \"quotes\" and \\ and \n", "null", "true", "1", " ", "x" * 200])
+            return r.choice(["", "a", "héllo", "中文", "\U0001F600", "with \"quotes\" and \\ and \n", "null", "true", "1", " ", "x" * 200,
+                             "a // b", " //comment-like", "line\n// next", "\t//x", "/* c */", "# hash", "http://x y //z", "--", "<!-- -->", "{\"k\": 1}", "[1, 2]"])
         if T is bool:
             return r.random() < 0.5
         raise TypeError(T)
